@@ -183,6 +183,29 @@ pub fn run(ctx: &mut Ctx) {
             }
         }
     }
+    // ---- current instants with a sub-second part: still before `to` until the second is complete
+    let mut rank: u64 = 0;
+    for now in &nows {
+        for frac in [".5", ".001", ".999", ".000001", ".999999999"] {
+            for off in [0i64, 32400, -12600] {
+                for d in [-1i64, 0, 1, 2] {
+                    rank += 1;
+                    if rank % n != shard {
+                        continue;
+                    }
+                    let to = Civil::from_secs(now + d + off).canonical();
+                    let base = fmt_rfc3339(*now, 0);
+                    let now_s = format!("{}{}{}", &base[..19], frac, &base[19..]);
+                    // floor(now) = *now, so ready iff to <= *now, i.e. d <= 0
+                    let want = d <= 0;
+                    debug_assert_eq!(rtime_ready(&to, &fmt_offset(off, true), parse_rfc3339(&now_s).unwrap()), Some(want));
+                    judge_eval(ctx, Some(Some(&to)), &fmt_offset(off, true), &now_s, want, "fractional-now");
+                    let cfg = Cfg { now: now_s.clone(), offset: fmt_offset(off, false), targets: vec![] };
+                    judge_doc(ctx, &sp, &format!("time-limited to='{to}'"), &cfg, want, "fractional-now-doc");
+                }
+            }
+        }
+    }
     // ---- random instants (whole range of years), random offsets on the 15-minute grid
     let total: u64 = if quick { 1_500_000 } else { 30_000_000 };
     for i in (shard..total).step_by(n as usize) {
